@@ -161,19 +161,102 @@ def base_calls() -> list[dict]:
         dict(fn="perplexity", cls="Perplexity", t=dict(input=_r(2, N, C), target=(torch.arange(2 * N) % C).reshape(2, N)), kw={}),
         dict(fn="torcheval.metrics.functional.statistical.wasserstein.wasserstein_1d", cls=None,
              t=dict(x=_r(N), y=_r(N + 1), x_weights=_r(N), y_weights=_r(N + 1)), kw={}),
+        dict(fn=None, cls="torcheval.metrics.statistical.wasserstein.Wasserstein1D",
+             t=dict(new_samples_dist_1=_r(N), new_samples_dist_2=_r(N + 1), new_weights_dist_1=_r(N), new_weights_dist_2=_r(N + 1)), kw={}),
+        dict(fn="multiclass_precision_recall_curve", cls="MulticlassPrecisionRecallCurve",
+             t=dict(input=_r(N, C), target=_cls(N)), kw={}, tag="num_classes=None"),
         dict(fn="peak_signal_noise_ratio", cls="PeakSignalNoiseRatio", t=dict(input=_r(2, 3, N, N), target=_r(2, 3, N, N) / 2), kw={}),
         dict(fn=None, cls="WindowedMeanSquaredError", t=dict(input=_r(N), target=_r(N), sample_weight=_r(N)), kw={}, tag="1d"),
         dict(fn=None, cls="WindowedMeanSquaredError", t=dict(input=_r(N, TK), target=_r(N, TK), sample_weight=_r(N)),
              kw=dict(num_tasks=TK), tag="tasks"),
-        dict(fn=None, cls="WindowedBinaryAUROC", t=dict(input=_r(N), target=_lab(N)), kw={}),
-        dict(fn=None, cls="WindowedBinaryNormalizedEntropy", t=dict(input=_r(N), target=_lab(N).float()), kw={}),
-        dict(fn=None, cls="WindowedClickThroughRate", t=dict(input=_lab(N).float(), weights=_r(N)), kw={}),
-        dict(fn=None, cls="WindowedWeightedCalibration", t=dict(input=_r(N), target=_lab(N).float(), weight=_r(N)), kw={}),
+        dict(fn=None, cls="WindowedBinaryAUROC", t=dict(input=_r(N), target=_lab(N)), kw={}, tag="unweighted"),
+        dict(fn=None, cls="WindowedBinaryAUROC", t=dict(input=_r(N), target=_lab(N), weight=_r(N)), kw={}, tag="weighted"),
+        dict(fn=None, cls="WindowedBinaryNormalizedEntropy", t=dict(input=_r(N), target=_lab(N).float()), kw={}, tag="unweighted"),
+        dict(fn=None, cls="WindowedBinaryNormalizedEntropy", t=dict(input=_r(N), target=_lab(N).float(), weight=_r(N)), kw={}, tag="weighted"),
+        dict(fn=None, cls="WindowedBinaryNormalizedEntropy", t=dict(input=_r(TK, N), target=_lab(TK, N).float(), weight=_r(TK, N)),
+             kw=dict(num_tasks=TK), tag="tasks"),
+        dict(fn=None, cls="WindowedClickThroughRate", t=dict(input=_lab(N).float(), weights=_r(N)), kw={}, tag="1d"),
+        dict(fn=None, cls="WindowedClickThroughRate", t=dict(input=_lab(TK, N).float(), weights=_r(TK, N)), kw=dict(num_tasks=TK), tag="tasks"),
+        dict(fn=None, cls="WindowedWeightedCalibration", t=dict(input=_r(N), target=_lab(N).float(), weight=_r(N)), kw={}, tag="1d"),
+        dict(fn=None, cls="WindowedWeightedCalibration", t=dict(input=_r(TK, N), target=_lab(TK, N).float(), weight=_r(TK, N)),
+             kw=dict(num_tasks=TK), tag="tasks"),
     ]
     for r in rows:
         r.setdefault("tag", "")
         r.setdefault("ckw", {})
+        r.setdefault("variant", False)
     return rows
+
+
+# option arguments that select a code path: the perturbation set is run for EVERY value, one option at a time
+OPTION_VALUES = {
+    "optimization": ["vectorized", "memory"],
+    "average": ["micro", "macro", "weighted", "none", None],
+    "from_logits": [False, True],
+    "multioutput": ["uniform_average", "raw_values", "variance_weighted"],
+    "limit_k_to_size": [False, True],
+    "criteria": ["exact_match", "hamming", "overlap", "contain", "belong"],
+    "normalize": [None, "all", "pred", "true"],
+    "reorder": [False, True],
+    "empty_target_action": ["neg", "pos", "skip", "err"],
+    "ignore_index": [None, 1],
+    "enable_lifetime": [True, False],
+}
+
+
+def option_variants(rows: list[dict]) -> list[dict]:
+    """rows + one variant row per (row, option parameter accepted by the functional or the class ctor, other value).
+    A variant whose base call raises is an inapplicable option value for that layout and is skipped by the stream."""
+    out = []
+    seen = set()
+    for r in rows:
+        out.append(r)
+        params = {}
+        if r.get("fn"):
+            params.update(inspect.signature(resolve_fn(r["fn"])).parameters)
+        if r.get("cls"):
+            params.update({k: v for k, v in inspect.signature(resolve_cls(r["cls"]).__init__).parameters.items() if k != "self"})
+        for opt, values in OPTION_VALUES.items():
+            if opt not in params:
+                continue
+            cur = r["kw"].get(opt, params[opt].default)
+            for v in values:
+                if v == cur and type(v) is type(cur):
+                    continue
+                key = (r.get("fn"), r.get("cls"), r["tag"], opt, repr(v))
+                if key in seen:
+                    continue
+                seen.add(key)
+                v2 = dict(r)
+                v2["kw"] = {**r["kw"], opt: v}
+                v2["tag"] = (r["tag"] + "," if r["tag"] else "") + f"{opt}={v}"
+                v2["variant"] = True
+                out.append(v2)
+    return out
+
+
+# weight-like tensor arguments and the argument whose shape they must have (documented: a tensor weight matches the
+# input; only a Python scalar weight broadcasts).  MSE `sample_weight` is documented as (n_sample,).
+WEIGHT_OF = {"weight": "input", "weights": "input", "x_weights": "x", "y_weights": "y",
+             "new_weights_dist_1": "new_samples_dist_1", "new_weights_dist_2": "new_samples_dist_2"}
+
+
+def weight_contract(targs: dict) -> list[str]:
+    """Names of tensor weight arguments whose shape violates the documented contract."""
+    bad = []
+    for w, ref in WEIGHT_OF.items():
+        if isinstance(targs.get(w), torch.Tensor) and isinstance(targs.get(ref), torch.Tensor):
+            if list(targs[w].shape) != list(targs[ref].shape):
+                bad.append(w)
+    sw, ref = targs.get("sample_weight"), targs.get("input")
+    if isinstance(sw, torch.Tensor) and isinstance(ref, torch.Tensor):
+        if sw.ndim != 1 or ref.ndim < 1 or sw.shape[0] != ref.shape[0]:
+            bad.append("sample_weight")
+    return bad
+
+
+def is_weight_arg(a: str) -> bool:
+    return a in WEIGHT_OF or a == "sample_weight"
 
 
 def resolve_fn(name: str):
@@ -185,6 +268,9 @@ def resolve_fn(name: str):
 
 
 def resolve_cls(name: str):
+    if "." in name:
+        mod, _, f = name.rpartition(".")
+        return getattr(__import__(mod, fromlist=[f]), f)
     import torcheval.metrics as M
     return getattr(M, name)
 
@@ -215,8 +301,10 @@ def reshape_cyclic(t: torch.Tensor, new: list[int]) -> torch.Tensor:
     return base.repeat(max(reps, 1))[:n].reshape(new)
 
 
-def shape_perturbations(shp: list[int]) -> list[tuple[str, list[int]]]:
+def shape_perturbations(shp: list[int], weight: bool = False) -> list[tuple[str, list[int]]]:
     out = []
+    if weight:      # single-element weights broadcast: always try (), (1,), (1,1)
+        out += [("w-0dim", []), ("w-one", [1]), ("w-one-2d", [1, 1])]
     for i in range(len(shp)):
         out.append((f"drop{i}", shp[:i] + shp[i + 1:]))
     out.append(("lead1", [1] + shp))
@@ -248,7 +336,8 @@ class Recorder:
         self.log: list[dict] = []
         self.installed = False
         self._raise_lines: dict[str, set[int]] = {}
-        self._code_raises: dict = {}      # code object of every check function -> line numbers of its raise statements
+        self._code_raises: dict = {}
+        self.defaults: dict[str, dict] = {}   # check function -> {param: default}      # code object of every check function -> line numbers of its raise statements
 
     def install(self):
         if self.installed:
@@ -276,6 +365,8 @@ class Recorder:
                             lines.update(range(r.lineno, (r.end_lineno or r.lineno) + 1))
             self._raise_lines[name] = lines
             self._code_raises[orig.__code__] = lines
+            self.defaults[name] = {k: v.default for k, v in inspect.signature(orig).parameters.items()
+                                   if v.default is not inspect.Parameter.empty}
             wrapper = self._wrap(name, orig, owner_cls is not None)
             if owner_cls is not None:
                 setattr(owner_cls, name, wrapper)
